@@ -17,8 +17,11 @@ LEVEL_NOTE = ("Lean kernel + standard axioms; Deferred chain modelled as an expl
               "ordering; literal files/directories have no verifier and are reported once per link (as the code says).")
 RULE = ("random directory graphs of up to 40 objects (mutable SDMF/MDMF directories with cycles and shared subdirectories, "
         "immutable CHK/LIT directories, CHK/LIT/mutable files, unknown caps; links by write cap or by read cap, the same "
-        "object linked both ways) built on the grid; deep_traverse with a recording walker, build_manifest, "
-        "start_deep_stats from a root reached by write cap or read cap; a case = one traversal; non-trivial = at least "
+        "object linked both ways; literal files linked twice and an empty literal file) built on the grid; deep_traverse "
+        "with a recording walker, build_manifest, start_deep_stats, start_deep_check(verify=False/True) and "
+        "start_deep_check_and_repair from a root reached by write cap or read cap — every statistics counter and the size "
+        "histogram, count-objects-checked and the set of result paths of each operation are compared with the model's "
+        "event sequence and with an independent reference walk; a case = one traversal; non-trivial = at least "
         "3 objects reachable")
 TRUSTED = ["lean/Tahoe/Dir/Traverse.lean is a hand transcription of the traversal (explicit stack for the recursion over dirkids)",
            "harness/grid.py; the graph sent to the driver is read back from the real directories (list() of every directory node)"]
@@ -48,7 +51,7 @@ def gen_graph(rng, nobj):
         if i == 0 or r < 0.3:
             objs.append({"kind": "mdir", "mdmf": rng.random() < 0.3, "links": []})
         elif r < 0.42:
-            objs.append({"kind": "lit", "data": rng.randrange(0, 50)})
+            objs.append({"kind": "lit", "data": rng.randrange(0, 50), "empty": rng.random() < 0.2})
         elif r < 0.57:
             objs.append({"kind": "chk", "data": rng.randrange(56, 300), "salt": rng.randrange(1 << 30)})
         elif r < 0.65:
@@ -73,6 +76,13 @@ def gen_graph(rng, nobj):
             objs[i]["links"].append([rng.choice(NAMES), t, mode])
             if rng.random() < 0.15:
                 objs[i]["links"].append([rng.choice(NAMES), t, "ro" if mode == "rw" else "rw"])   # both ways
+    # literal files are not de-duplicated by the walk: make sure most graphs link one literal twice and an empty one
+    if rng.random() < 0.8:
+        host = rng.choice(mdirs)
+        objs.append({"kind": "lit", "data": rng.randrange(1, 40), "empty": False})
+        objs.append({"kind": "lit", "data": 0, "empty": True})
+        objs[host]["links"] += [["lit-1", len(objs) - 2, "ro"], ["lit-2", len(objs) - 2, "ro"], ["lit-empty", len(objs) - 1, "ro"]]
+        objs[0]["links"].append(["lit-again", len(objs) - 2, "ro"])
     return {"objs": objs, "root": [0, rng.choice(["rw", "rw", "ro"])]}
 
 
@@ -84,6 +94,13 @@ CORPUS = [
               {"kind": "mdir", "mdmf": True, "links": [["up", 0, "rw"], ["self", 1, "ro"], ["l", 2, "ro"]]},
               {"kind": "lit", "data": 5}, {"kind": "unknown", "cap": "lafs://x", "imm": False}],
      "root": [0, "rw"]},
+    # literal files only: one linked twice, an empty one, a CHK file for contrast
+    {"objs": [{"kind": "mdir", "mdmf": False, "links": [["one", 1, "ro"], ["two", 1, "ro"], ["empty", 2, "ro"], ["big", 3, "ro"],
+                                                       ["sub", 4, "rw"]]},
+              {"kind": "lit", "data": 9, "empty": False}, {"kind": "lit", "data": 0, "empty": True},
+              {"kind": "chk", "data": 120, "salt": 1},
+              {"kind": "mdir", "mdmf": False, "links": [["one-again", 1, "ro"], ["empty-again", 2, "ro"]]}],
+     "root": [0, "ro"]},
 ]
 
 
@@ -108,7 +125,7 @@ def build(w, case):
             nodes[i] = n
             caps[i] = {"rw": n.get_uri(), "ro": n.get_readonly_uri()}
         elif k == "lit":
-            res = rt.wait(c.upload(upload.Data(b"L%d:" % i + b"x" * o["data"], convergence=b"c" * 16)))
+            res = rt.wait(c.upload(upload.Data(b"" if o.get("empty") else b"L%d:" % i + b"x" * o["data"], convergence=b"c" * 16)))
             caps[i] = {"rw": None, "ro": res.get_uri()}
         elif k == "chk":
             res = rt.wait(c.upload(upload.Data(b"%d:%d:" % (i, o["salt"]) + b"y" * o["data"], convergence=b"c" * 16)))
@@ -198,6 +215,58 @@ class Recorder:
         return self.events
 
 
+def bucket(size):
+    """deep_stats.which_bucket: (0,0), (1,3), (4,10), (11,31), (32,100), … two buckets per decade"""
+    if size == 0:
+        return (0, 0)
+    lo, j = 1, 1
+    while True:
+        up = int(round(10 ** (j / 2.0), 6)) if j % 2 == 0 else int(10 ** (j / 2.0))
+        if size <= up:
+            return (lo, up)
+        lo, j = up + 1, j + 1
+
+
+def stats_from_events(events, static):
+    """DeepStats as a fold over the walker events `A<id>@<path>` / `E<id>` -> (stats, sorted paths of checkable nodes)"""
+    st = {k: 0 for k in ["count-immutable-files", "count-mutable-files", "count-literal-files", "count-files",
+                         "count-directories", "count-unknown", "size-immutable-files", "size-literal-files",
+                         "size-directories", "largest-directory", "largest-directory-children", "largest-immutable-file"]}
+    hist, paths = {}, []
+    for e in events:
+        if e.startswith("E"):
+            x = static[int(e[1:])]
+            if x["size"] is not None:
+                st["size-directories"] += x["size"]
+                st["largest-directory"] = max(st["largest-directory"], x["size"])
+            st["largest-directory-children"] = max(st["largest-directory-children"], x["nkids"])
+            continue
+        i, pth = int(e[1:e.index("@")]), e[e.index("@") + 1:]
+        x = static[i]
+        if x["v"]:
+            paths.append(pth)
+        if x["kind"] == "u":
+            st["count-unknown"] += 1
+        elif x["kind"] == "d":
+            st["count-directories"] += 1
+        elif x["mutable"]:
+            st["count-files"] += 1
+            st["count-mutable-files"] += 1
+        else:
+            st["count-files"] += 1
+            b = bucket(x["size"])
+            hist[b] = hist.get(b, 0) + 1
+            if not x["v"]:
+                st["count-literal-files"] += 1
+                st["size-literal-files"] += x["size"]
+            else:
+                st["count-immutable-files"] += 1
+                st["size-immutable-files"] += x["size"]
+                st["largest-immutable-file"] = max(st["largest-immutable-file"], x["size"])
+    st["size-files-histogram"] = sorted((lo, up, n) for (lo, up), n in hist.items())
+    return st, sorted(paths)
+
+
 def one_case(ctx, w, case, lines, impls, cases):
     from allmydata.interfaces import IDirectoryNode
     rt = w["rt"]
@@ -226,27 +295,26 @@ def one_case(ctx, w, case, lines, impls, cases):
     man_events = ["A%d@%s" % (ids.get(cap or b"<opaque>", -1), "/".join(nm(p) for p in path) or "-") for (path, cap) in manifest]
     if man_events != [e for e in events if e.startswith("A")]:
         ctx.disagree("build_manifest order differs from the recording walker's add_node order", case, man_events[:10], events[:10])
-    counts = {"count-directories": 0, "count-unknown": 0, "count-literal-files": 0, "count-immutable-files": 0,
-              "count-mutable-files": 0, "count-files": 0}
-    for e in events:
-        if e.startswith("A"):
-            i = int(e[1:e.index("@")])
-            k, v, kids, n = infos[i]
-            if k == "u":
-                counts["count-unknown"] += 1
-            elif k == "d":
-                counts["count-directories"] += 1
-            else:
-                counts["count-files"] += 1
-                if n.is_mutable():
-                    counts["count-mutable-files"] += 1
-                elif v is None:
-                    counts["count-literal-files"] += 1
-                else:
-                    counts["count-immutable-files"] += 1
-    got = {k: stats[k] for k in counts}
-    if got != counts or {k: res["stats"][k] for k in counts} != counts:
-        ctx.disagree("deep-stats counters differ from the event sequence", case, got, counts)
+    # ---- deep-check (verify or not) and deep-check-and-repair: their embedded statistics, counters and result paths
+    opstats = {"manifest": res["stats"], "deep-stats": stats}
+    checked = {}
+    ops = [("deep-check", lambda: root.start_deep_check(verify=False)),
+           ("check-and-repair", lambda: root.start_deep_check_and_repair(verify=False))]
+    if w["n"] % 3 == 0 or len(infos) <= 8:
+        ops.append(("deep-check-verify", lambda: root.start_deep_check(verify=True)))
+    w["n"] += 1
+    for opname, start in ops:
+        try:
+            r = rt.wait(start().when_done())
+        except Exception as e:  # noqa
+            ctx.disagree("%s raised" % opname, case, "%s: %s" % (type(e).__name__, e), None)
+            continue
+        opstats[opname] = r.get_stats()
+        checked[opname] = (r.get_counters(), sorted("/".join(nm(p) for p in path) or "-" for path in r.get_all_results()))
+    static = {i: {"kind": k, "v": v is not None, "mutable": (k == "f" and n.is_mutable()),
+                  "size": (None if k == "u" else n.get_size()), "nkids": len(kids or [])}
+              for i, (k, v, kids, n) in infos.items()}
+    w["post"].append((case, static, opstats, checked))
     # ---- monitor, from the statement
     V = lambda what, sig, detail=None: ctx.violation(what, case, sig, detail)
     # reachable objects by my own search over the links that exist (identity: verifier, else the cap per link)
@@ -291,6 +359,46 @@ def one_case(ctx, w, case, lines, impls, cases):
     if got_links != want_links:
         V("literal / unknown children are not reported once per link of a visited directory", "literal-per-link",
           {"got": got_links, "want": want_links})
+    # statistics and deep-check results against the reference walk: every object with a verify cap counted once,
+    # literal / unknown children once per link of a visited directory
+    distinct = lambda pred: len({infos[i][1] for i in reach if infos[i][1] is not None and pred(infos[i])})
+    links = lambda pred: sum(cnt for c, cnt in want_links.items() if pred(infos[c]))
+    ref = {
+        "count-immutable-files": distinct(lambda x: x[0] == "f" and not x[3].is_mutable()),
+        "count-mutable-files": distinct(lambda x: x[0] == "f" and x[3].is_mutable()),
+        "count-literal-files": links(lambda x: x[0] == "f"),
+        "count-unknown": links(lambda x: x[0] == "u"),
+        "count-directories": distinct(lambda x: x[0] == "d") + links(lambda x: x[0] == "d") + (1 if infos[0][1] is None else 0),
+        "size-literal-files": sum(cnt * infos[c][3].get_size() for c, cnt in want_links.items() if infos[c][0] == "f"),
+    }
+    ref["count-files"] = ref["count-immutable-files"] + ref["count-mutable-files"] + ref["count-literal-files"]
+    n_hist_ref = ref["count-immutable-files"] + ref["count-literal-files"]
+    for opname, st in opstats.items():
+        for k, want in ref.items():
+            if st.get(k) != want:
+                V("%s: statistic %s is %r, the reference walk gives %r" % (opname, k, st.get(k), want),
+                  "stats:%s:%s" % (k, "deep-check" if opname != "manifest" and opname != "deep-stats" else opname))
+        nh = sum(x[2] for x in st.get("size-files-histogram", []))
+        if nh != n_hist_ref:
+            V("%s: the size histogram holds %d files, the reference walk %d" % (opname, nh, n_hist_ref),
+              "stats:size-files-histogram:%s" % ("deep-check" if opname not in ("manifest", "deep-stats") else opname))
+    n_checkable = distinct(lambda x: True)
+    kidmap = {i: dict(x[2] or []) for i, x in infos.items()}
+    for opname, (counters, paths) in checked.items():
+        if counters["count-objects-checked"] != n_checkable or len(paths) != n_checkable:
+            V("%s checked %d objects (%d result paths), %d distinct objects with a verify cap are reachable"
+              % (opname, counters["count-objects-checked"], len(paths), n_checkable), "objects-checked:" + opname)
+        got_v = set()
+        for pth in paths:
+            i = 0
+            for hexname in ([] if pth == "-" else pth.split("/")):
+                i = kidmap[i].get(bytes.fromhex(hexname).decode("utf-8") if hexname != "-" else "", None) if i is not None else None
+            if i is None or infos[i][1] is None:
+                V("%s: a result path does not lead to an object with a verify cap" % opname, "check-path-wrong:" + opname)
+            else:
+                got_v.add(infos[i][1])
+        if len(got_v) != len(paths):
+            V("%s: two result paths lead to the same object" % opname, "checked-twice:" + opname)
     # every reported path leads to the reported node
     for (path, cap) in manifest[: 60]:
         n = rt.wait(root.get_child_at_path(list(path)))
@@ -311,13 +419,13 @@ def run(ctx):
     else:
         cases_in = [json.loads(json.dumps(c)) for c in CORPUS]
         sizes = [3, 6, 10, 16, 25, 40]
-        for i in range(ctx.budget(45, 400)):
+        for i in range(ctx.budget(18, 250)):
             cases_in.append(gen_graph(ctx.rng, ctx.rng.choice(sizes)))
     lines, impls, cases = [], [], []
     with grid.Runtime(seed=ctx.seed, policy="random") as rt:
         g = grid.Grid(grid.fresh_dir("c21"), rt, num_servers=3, num_clients=1, k=1, happy=1, n=2)
         try:
-            w = {"rt": rt, "c": g.clients[0]}
+            w = {"rt": rt, "c": g.clients[0], "post": [], "n": 0}
             for case in cases_in:
                 one_case(ctx, w, case, lines, impls, cases)
         finally:
@@ -325,5 +433,22 @@ def run(ctx):
     model = ctx.model(lines)
     if model is not None:
         ctx.compare("deep_traverse event sequence (add_node / enter_directory, node, path)", cases, impls, model)
+        # statistics, objects-checked and result paths of every operation against the model's event sequence
+        for (case, static, opstats, checked), mout in zip(w["post"], model):
+            want_stats, want_paths = stats_from_events(mout.split(" ")[0].split(","), static)
+            for opname, st in opstats.items():
+                got = {k: (sorted(tuple(x) for x in v) if k == "size-files-histogram" else v) for k, v in st.items() if k in want_stats}
+                if got != want_stats:
+                    diff = {k: (got.get(k), want_stats[k]) for k in want_stats if got.get(k) != want_stats[k]}
+                    ctx.disagree("%s: statistics differ from those of the model's event sequence" % opname, case,
+                                 {k: v[0] for k, v in diff.items()}, {k: v[1] for k, v in diff.items()})
+            for opname, (counters, paths) in checked.items():
+                if counters["count-objects-checked"] != len(want_paths) or paths != want_paths:
+                    ctx.disagree("%s: objects checked / result paths differ from the model's event sequence" % opname, case,
+                                 [counters["count-objects-checked"], paths[:8]], [len(want_paths), want_paths[:8]])
+                bad = {k: v for k, v in counters.items() if ("unhealthy" in k or "unrecoverable" in k or "corrupt" in k
+                                                              or "repairs" in k) and v}
+                if bad:
+                    ctx.disagree("%s reports damage on a healthy grid" % opname, case, bad, None)
     if cases:
         ctx.sample({"objects": len(cases[-1]["objs"]), "impl": impls[-1][:300]})
